@@ -32,7 +32,7 @@ def gen(c):
     return p
 
 def run(c):
-    c.mc('MC_Aead', actions=None)
+    c.mc_bg('MC_Aead', 'MC_Aead' if c.tier == 'thorough' else 'MC_AeadQ')
     p = gen(c)
     c.assumptions += ['structure (lengths mod rate, block counts, families, in-place, NULL-for-empty, alignment, chunkings) enumerated/sampled by class; key/nonce/data VALUES sampled (random, all-0, all-FF, counting, single bit)',
                       'expected values are computed by TLC from AsconModes.tla (anchored on the reference KAT vectors by KatCheck)']
